@@ -536,8 +536,10 @@ class Gen(object):
             for i in range(n):
                 kk = d(st.integers(0, 9))
                 key = ['k', d(st.sampled_from(['x', 'y', 'z', 'w']))]
-                if kk == 0 and isinstance(value, dict) and any(isinstance(v, (str, int)) and not isinstance(v, bool) for v in value.values()):
-                    src = d(st.sampled_from(sorted(k_ for k_, v in value.items() if isinstance(v, (str, int)) and not isinstance(v, bool) and isinstance(k_, str))))
+                srcs = (sorted(k_ for k_, v in value.items() if isinstance(v, (str, int)) and not isinstance(v, bool)
+                               and isinstance(k_, str)) if isinstance(value, dict) else [])
+                if kk == 0 and srcs:
+                    src = d(st.sampled_from(srcs))
                     key = [d(st.sampled_from(['Tkey', 'Speckey'])), [['[', src]]]
                 if repr(key) in used:
                     continue
